@@ -450,7 +450,7 @@ class VM:
         elif op == OpCode.POW:
             b = self.stack.pop()
             a = self.stack.pop()
-            self.stack.append(to_number(a) ** to_number(b))
+            self.stack.append(self._pow(to_number(a), to_number(b)))
 
         elif op == OpCode.NEG:
             a = self.stack.pop()
@@ -857,6 +857,42 @@ class VM:
             return to_string(a) + to_string(b)
         # Numeric addition
         return to_number(a) + to_number(b)
+
+    def _pow(self, base: Union[int, float], exp: Union[int, float]) -> float:
+        """JavaScript ** operator (Number::exponentiate) on IEEE doubles.
+
+        Python's int ** int is unbounded (2 ** 1e20 never finishes) and
+        float ** raises OverflowError / ZeroDivisionError where JavaScript
+        yields Infinity, so the operands are always taken as doubles.
+        """
+
+        def as_double(n):
+            try:
+                return float(n)
+            except OverflowError:
+                return math.inf if n > 0 else -math.inf
+
+        b = as_double(base)
+        e = as_double(exp)
+        if math.isnan(e):
+            return math.nan
+        if e == 0:
+            return 1.0
+        if math.isnan(b):
+            return math.nan
+        if math.isinf(e):
+            if abs(b) == 1:
+                return math.nan
+            return math.inf if (abs(b) > 1) == (e > 0) else 0.0
+        odd = e.is_integer() and abs(e) < 2**53 and int(e) % 2 == 1
+        try:
+            return math.pow(b, e)
+        except OverflowError:
+            return -math.inf if (b < 0 and odd) else math.inf
+        except ValueError:
+            if b == 0:  # zero to a negative power
+                return -math.inf if (math.copysign(1, b) < 0 and odd) else math.inf
+            return math.nan  # negative base, fractional exponent
 
     def _to_int32(self, value: JSValue) -> int:
         """Convert to 32-bit signed integer."""
